@@ -71,6 +71,32 @@ class _PersistentWiring:
         super()._load_from_state_dict(state_dict, prefix, *args, **kwargs)
 
 
+def _sample_distinct_pairs(num_positions, sample_size, device):
+    """sample_size distinct unordered pairs (i < j) of range(num_positions), uniformly, as two index tensors.
+
+    The pairs are numbered row by row ((0,1), (0,2), ..., (1,2), ...); distinct numbers are drawn by rejection and
+    turned back into pairs, so memory and time do not grow with the number of possible pairs.
+    """
+    total_pairs = num_positions * (num_positions - 1) // 2
+    seen, picks = set(), []
+    while len(picks) < sample_size:
+        for v in torch.randint(0, total_pairs, (sample_size,), device=device).tolist():
+            if v not in seen and len(picks) < sample_size:
+                seen.add(v)
+                picks.append(v)
+    first, second = [], []
+    for v in picks:
+        # row i starts at number i * (2 * num_positions - i - 1) / 2
+        i = (2 * num_positions - 1 - math.isqrt((2 * num_positions - 1) ** 2 - 8 * v)) // 2
+        while i * (2 * num_positions - i - 1) // 2 > v:
+            i -= 1
+        while (i + 1) * (2 * num_positions - i - 2) // 2 <= v:
+            i += 1
+        first.append(i)
+        second.append(v - i * (2 * num_positions - i - 1) // 2 + i + 1)
+    return (torch.tensor(first, dtype=torch.long, device=device), torch.tensor(second, dtype=torch.long, device=device))
+
+
 class LogicConv2d(_PersistentWiring, nn.Module):
     """2d convolutional layer with differentiable logic operations.
 
@@ -328,20 +354,13 @@ class LogicConv2d(_PersistentWiring, nn.Module):
         if sample_size > max_unique_pairs:
             raise ValueError(f"Not enough unique pairs: need {sample_size}, have {max_unique_pairs}")
 
-        # Use torch.randperm for efficient unique sampling
-        # Create all possible pair indices
-        triu_indices = torch.triu_indices(num_positions, num_positions, offset=1, device=self.device)
-        total_pairs = triu_indices.shape[1]
-
         all_pairs_a = []
         all_pairs_b = []
 
         # Generate different unique pairs for each kernel
         for _ in range(self.num_kernels):
-            # Randomly select sample_size pairs
-            selected_pair_indices = torch.randperm(total_pairs, device=self.device)[:sample_size]
-            selected_i = triu_indices[0, selected_pair_indices]
-            selected_j = triu_indices[1, selected_pair_indices]
+            # Randomly select sample_size distinct pairs (i < j) without listing all of them
+            selected_i, selected_j = _sample_distinct_pairs(num_positions, sample_size, self.device)
 
             pairs_a = all_positions[selected_i]
             pairs_b = all_positions[selected_j]
@@ -648,20 +667,13 @@ class LogicConv3d(_PersistentWiring, nn.Module):
         if sample_size > max_unique_pairs:
             raise ValueError(f"Not enough unique pairs: need {sample_size}, have {max_unique_pairs}")
 
-        # Use torch.randperm for efficient unique sampling
-        # Create all possible pair indices
-        triu_indices = torch.triu_indices(num_positions, num_positions, offset=1, device=self.device)
-        total_pairs = triu_indices.shape[1]
-
         all_pairs_a = []
         all_pairs_b = []
 
         # Generate different unique pairs for each kernel
         for _ in range(self.num_kernels):
-            # Randomly select sample_size pairs
-            selected_pair_indices = torch.randperm(total_pairs, device=self.device)[:sample_size]
-            selected_i = triu_indices[0, selected_pair_indices]
-            selected_j = triu_indices[1, selected_pair_indices]
+            # Randomly select sample_size distinct pairs (i < j) without listing all of them
+            selected_i, selected_j = _sample_distinct_pairs(num_positions, sample_size, self.device)
 
             pairs_a = all_positions[selected_i]
             pairs_b = all_positions[selected_j]
